@@ -16,7 +16,7 @@ func init() {
 		ID:   "C15",
 		Rule: "one case = (codec, garbage prefix of 0-2 strings, frame A shape, loss subset of A's packets, frame B shape); the delivered packets of A then all packets of B go into one depacketizer and B's outputs are compared with a fresh depacketizer that sees B only; non-trivial = at least one packet of A was lost and at least one delivered",
 		Assumptions: []string{
-			"H264 frames A: 12 shapes of up to 10 packets mixing single NAL units, STAP-A and FU-A trains (reference encoder); frames B: single / STAP-A / FU-A train / FU-A train + single; Annex-B and AVC output",
+			"H264 frames A: 12 shapes of up to 10 packets mixing single NAL units, STAP-A and FU-A trains (reference encoder); frames B: single / STAP-A / FU-A train / FU-A train + single / FU-A trains whose start, middle or end fragment carries no payload octets (also among the A shapes); Annex-B and AVC output",
 			"AV1 frames A: 8 OBU sequences packetized by AV1Payloader at small MTUs into up to 10 packets with Z/Y chains; frames B start with Z=0, with and without N=1",
 			"large abandoned fragments: a fragmented unit / OBU of 70 KB, 1 MiB + 1 KB and 3 MB whose end (or start, or one middle fragment) is lost, at MTU 1200, followed by each frame-B shape; for H264 also abandoned units that leave 2^16..2^22 minus {0,1,600,1197,1199} bytes buffered, followed by a frame B with full-size fragments",
 			"ALL loss subsets of A (2^n, n <= 10) delivered in order; garbage: every sequence of up to 2 strings before frame A and 0-1 string between the delivered part of A and frame B, from an 8 (H264) / 12 (AV1) string corpus (nil, empty, orphan fragments, truncated aggregation, start of a never-finished fragment)",
@@ -53,14 +53,21 @@ func c15H264Frame(shape string, seed int) [][]byte {
 				cuts = append(cuts, 2*k)
 			}
 			out = append(out, ref.H264Fragment(u, cuts)...)
+		case ch == 'E' || ch == 'M' || ch == 'Z':
+			// FU-A train of three fragments of which the start / middle / end one carries
+			// no payload octets (RFC 6184 5.8: an FU payload MAY be empty)
+			typ, nri := []uint8{5, 1, 7}[(seed+i)%3], []uint8{3, 2, 1}[(seed+i)%3]
+			u := ref.H264Unit(typ, nri, 5, s)
+			cuts := map[rune][]int{'E': {0, 2}, 'M': {2, 2}, 'Z': {2, 4}}[ch]
+			out = append(out, ref.H264Fragment(u, cuts)...)
 		}
 	}
 	return out
 }
 
 var (
-	c15H264A = []string{"2", "3", "5", "s3", "3s", "a4", "23", "32s", "s2a2", "334", "6s3", "a22s2"}
-	c15H264B = []string{"s", "a", "3", "2s", "as3"}
+	c15H264A = []string{"2", "3", "5", "s3", "3s", "a4", "23", "32s", "s2a2", "334", "6s3", "a22s2", "E", "M2"}
+	c15H264B = []string{"s", "a", "3", "2s", "as3", "E", "M", "Z", "sE"}
 )
 
 type c15Depack interface {
